@@ -2,6 +2,7 @@ package rules
 
 import (
 	"fmt"
+	"go/types"
 	"strings"
 
 	"golang.org/x/tools/go/ssa"
@@ -339,6 +340,42 @@ func c15Until(c *core.Ctx) {
 	}
 }
 
+// c15Ctx: InjectGER returns only when the L2 transaction was mined — or when its context ends, in which case the EVM
+// sender answers nil. The oracle must therefore wait under its own, unbounded context: a derived context with a deadline
+// makes a slow L2 look like "injected", the next tick sees "not injected" and sends the same root again.
+func c15Ctx(c *core.Ctx) {
+	const rule = "C15-ctx"
+	sx := core.NewSymx()
+	for _, w := range []struct{ fn, callee string }{
+		{"Start", "(*aggoracle.AggOracle).processLatestGER"},
+		{"processLatestGER", ").InjectGER"},
+	} {
+		fn := c.MustFn(rule, "aggoracle", "AggOracle", w.fn)
+		if fn == nil {
+			continue
+		}
+		n := 0
+		core.InstrsDeep(fn, func(_ *ssa.Function, i ssa.Instruction) {
+			cc := core.AsCall(i)
+			if cc == nil || !strings.HasSuffix(core.CallName(i), w.callee) {
+				return
+			}
+			n++
+			args := core.CallArgs(cc)
+			ok := false
+			for _, a := range args {
+				if types.TypeString(a.Type(), nil) == "context.Context" {
+					ok = sx.Of(a).String() == "ctx"
+				}
+			}
+			c.Decide(ok, rule, "aggoracle.(*AggOracle)."+w.fn+"#ctx-of-"+strings.TrimPrefix(w.callee[strings.LastIndex(w.callee, ".")+1:], ")"), i.Pos(), "the call runs under the function's own context parameter (no derived deadline)")
+		})
+		if n == 0 {
+			c.Violate(rule, "aggoracle.(*AggOracle)."+w.fn+"#ctx", fn.Pos(), "call to "+w.callee+" not found")
+		}
+	}
+}
+
 func init() {
 	register(&Property{
 		ID:    "C15",
@@ -347,6 +384,9 @@ func init() {
 		Rules: []Rule{
 			{ID: "C15-gate", Floor: 3, Run: func(c *core.Ctx) { c15Gate(c); c15SingleFlight(c) }, Text: "[DOM]+[WHO] inject only after IsGERInjected(g) == (false, nil); g from a successful lookup"},
 			{ID: "C15-prov", Floor: 7, Run: c15Prov, Text: "[PROV]+[DOM] finality sample, queried block, result and retry target (sticks only while the syncer is behind), finality field writers"},
+			{ID: "C15-bootstrap", Floor: 2, Run: shared("C15-bootstrap", c05Bootstrap), Text: "(shared with C05-bootstrap) the L1 info tree syncer also syncs the initial block"},
+			{ID: "C15-finality", Floor: 7, Run: shared("C15-finality", c06Finality), Text: "(shared with C06-finality) a block beyond finality is never delivered as finalized: its L1 info leaf would survive a reorg and the oracle would inject a root the canonical L1 never held"},
+			{ID: "C15-ctx", Floor: 2, Run: c15Ctx, Text: "[PROV] the tick and the injection wait under the oracle's own context"},
 			{ID: "C15-until", Floor: 3, Run: c15Until, Text: "SQL+[PROV]: GetLatestInfoUntilBlock(n) = last leaf with block_num <= n, bound to n, only once block n was processed; façade pass-through"},
 		},
 	})
